@@ -94,7 +94,11 @@ fn period_text(p: &(u64, String)) -> String {
 
 fn period() -> impl Strategy<Value = (u64, String)> {
 	// zero is a value like any other ("0s" at a specific level overrides a non-zero general one)
-	(prop_oneof![1 => Just(0u64), 7 => 1u64..400], proptest::sample::select(vec!["s", "m", "h", "d", "w"])).prop_map(|(n, u)| (n, u.to_string()))
+	// ... and so is a value equal to the built-in default (renew_delay: 30 days, written in several ways)
+	prop_oneof![
+		8 => (prop_oneof![1 => Just(0u64), 7 => 1u64..400], proptest::sample::select(vec!["s", "m", "h", "d", "w"])).prop_map(|(n, u)| (n, u.to_string())),
+		1 => proptest::sample::select(vec![(30u64, "d"), (720, "h"), (43200, "m"), (2592000, "s")]).prop_map(|(n, u)| (n, u.to_string())),
+	]
 }
 
 fn levels() -> impl Strategy<Value = Levels> {
@@ -445,7 +449,10 @@ fn include_text(case: &Case, root: &str, from: usize, inc: &Inc) -> String {
 	}
 	match inc {
 		Inc::File { target, absolute } => {
-			if *absolute {
+			if *absolute && case.files[*target].linked && from % 2 == 1 {
+				// the file behind the link, named directly: the same file under a second name (read once all the same)
+				format!("{root}/real/x/f{target}.toml")
+			} else if *absolute {
 				file_path(case, root, *target)
 			} else {
 				rel(fd, case.files[*target].dir, &case.files[*target].name)
